@@ -11,6 +11,7 @@ import (
 	"math/rand"
 	"runtime"
 	"strings"
+	"sync"
 	"time"
 
 	"github.com/alephium/wormhole-fork/node/cmd/guardiand"
@@ -24,12 +25,42 @@ import (
 
 var r *vlib.Run
 
+// hclock is the library's mock clock; it only remembers the tickers the dispatcher creates so that the harness can
+// wait until a tick that fell due has been taken (any use of the clock - Ticker, Reset, Stop, Timer, After, Now -
+// behaves as the library defines it).
 type hclock struct {
 	*clock.Mock
-	tick chan time.Time
+	mu      sync.Mutex
+	tickers []*clock.Ticker
 }
 
-func (h *hclock) Ticker(d time.Duration) *clock.Ticker { return &clock.Ticker{C: h.tick} }
+func (h *hclock) Ticker(d time.Duration) *clock.Ticker {
+	t := h.Mock.Ticker(d)
+	h.mu.Lock()
+	h.tickers = append(h.tickers, t)
+	h.mu.Unlock()
+	return t
+}
+
+// ticksTaken waits until no tick is left undelivered in a ticker channel.
+func (h *hclock) ticksTaken(wd time.Duration) bool {
+	deadline := time.Now().Add(wd)
+	for {
+		pending := 0
+		h.mu.Lock()
+		for _, t := range h.tickers {
+			pending += len(t.C)
+		}
+		h.mu.Unlock()
+		if pending == 0 {
+			return true
+		}
+		if time.Now().After(deadline) {
+			return false
+		}
+		time.Sleep(50 * time.Microsecond)
+	}
+}
 
 const sentinelChain = vaa.ChainID(60000)
 
@@ -99,7 +130,7 @@ func runSeq(rng *rand.Rand, sIdx int) {
 	mock := clock.NewMock()
 	base := time.Unix(1700000000, 0)
 	mock.Set(base)
-	clk := &hclock{Mock: mock, tick: make(chan time.Time)}
+	clk := &hclock{Mock: mock}
 	obsvReqC := make(chan *gossipv1.ObservationRequest)
 	chains := map[vaa.ChainID]chan *gossipv1.ObservationRequest{}
 	model := map[vaa.ChainID][]*gossipv1.ObservationRequest{}
@@ -120,7 +151,6 @@ func runSeq(rng *rand.Rand, sIdx int) {
 	nTx := 1 + rng.Intn(6)
 	now := base
 	phase := time.Duration(rng.Intn(14)) * 30 * time.Second
-	nextTick := base.Add(phase + 7*time.Minute)
 	lastFwd := map[key]time.Time{}
 	var trace []string
 	sentinelN := 0
@@ -157,6 +187,22 @@ func runSeq(rng *rand.Rand, sIdx int) {
 		}
 		return m
 	}
+	// advance moves the mock clock; ticks that fall due are delivered by the library's ticker, and the harness waits
+	// until the dispatcher has taken them and has gone round its loop once more
+	advance := func(d time.Duration) {
+		mock.Add(d)
+		now = mock.Now()
+		if !clk.ticksTaken(5 * time.Second) {
+			blocked = true
+			r.Violation("dispatcher-blocked:purge-tick", map[string]interface{}{"layout": layout, "trace": tailS(trace, 30), "dispatcher_goroutine": dump()})
+			return
+		}
+		sentinel()
+	}
+	if !sentinel() { // the dispatcher is in its loop: its ticker (if any) exists and started at `base`
+		return
+	}
+	advance(phase) // requests come at a random phase of the purge period
 	nSteps := 20 + rng.Intn(181)
 	for st := 0; st < nSteps && !blocked; st++ {
 		r.Count("steps", 1)
@@ -251,24 +297,9 @@ func runSeq(rng *rand.Rand, sIdx int) {
 			}
 		case x < 8: // advance the clock, delivering the purge ticks that fall due
 			d := []time.Duration{time.Second, 30 * time.Second, 3 * time.Minute, 6 * time.Minute, 7 * time.Minute, 10*time.Minute + 59*time.Second, 11*time.Minute + time.Second, 12 * time.Minute, 18*time.Minute + time.Second, 25 * time.Minute}[rng.Intn(10)]
-			target := now.Add(d)
-			for !nextTick.After(target) && !blocked {
-				mock.Set(nextTick)
-				trace = append(trace, fmt.Sprintf("t=%s purge-tick", nextTick.Sub(base)))
-				select {
-				case clk.tick <- nextTick:
-				case <-time.After(5 * time.Second):
-					blocked = true
-					r.Violation("dispatcher-blocked:purge-tick", map[string]interface{}{"layout": layout, "trace": tailS(trace, 30), "dispatcher_goroutine": dump()})
-				}
-				if !blocked {
-					sentinel()
-				}
-				r.Count("purge_ticks", 1)
-				nextTick = nextTick.Add(7 * time.Minute)
-			}
-			now = target
-			mock.Set(now)
+			before := now
+			advance(d)
+			r.Count("purge_ticks", int64(now.Sub(base)/(7*time.Minute)-before.Sub(base)/(7*time.Minute)))
 			trace = append(trace, fmt.Sprintf("advance(%s)", d))
 		default: // drain k from one queue, checking FIFO content
 			c := ids[rng.Intn(len(ids))]
